@@ -61,6 +61,9 @@ class CirqExporter(QCircuitExporter):
                         elif isinstance(g, gates.Swap):
                             yield cirq.SWAP(qubits[w[0]], qubits[w[1]])
 
+                        elif isinstance(g, gates.P):
+                            yield cirq.ZPowGate(exponent=p / math.pi)(qubits[w[0]])
+
                         elif isinstance(g, gates.CP):
                             cphase_gate = cirq.CZPowGate(exponent=p / math.pi)
                             yield cphase_gate(qubits[w[0]], qubits[w[1]])
